@@ -513,7 +513,8 @@ Exec(s, fr0) ==
               ELSE /\ stack' = SetTop([fr EXCEPT !.env = Bind(fr.env, s.n, z, s.t)]) /\ Same
          ELSE DoRoot(s.init[1], [k |-> "var", n |-> s.n, t |-> s.t], fr)
     [] s.k = "hoist" -> DoRoot(s.init, [k |-> "hoist", n |-> s.n], fr)
-    [] s.k = "assign" -> IF Bound(fr.env, s.n) THEN DoRoot(s.v, [k |-> "assign", n |-> s.n], fr) ELSE Unsupported("assignment to undeclared " \o s.n)
+    [] s.k = "assign" -> IF s.n = "_" THEN DoRoot(s.v, [k |-> "discard"], fr)        \* blank identifier: the value is evaluated and dropped
+                         ELSE IF Bound(fr.env, s.n) THEN DoRoot(s.v, [k |-> "assign", n |-> s.n], fr) ELSE Unsupported("assignment to undeclared " \o s.n)
     [] s.k = "expr" -> DoRoot(s.e, [k |-> "discard"], fr)
     [] s.k = "return" ->
          IF s.e = <<>> THEN /\ retv' = [on |-> TRUE, v |-> VUnit] /\ stack' = SetTop(fr) /\ UNCHANGED <<heap, nxt, out, status>> /\ Keep
